@@ -86,6 +86,10 @@ def work(ctx):
                     ctx.case("ser_json (code_data_to_json %s)" % E.g_cd(d), J.t_json(cdoc), "to_json %s" % what, "to_json")
                     cl = J.canon_cd(loaded)
                     ctx.case("ser_res ser_cd (code_data_from_json %s)" % J.g_json(cl), tres(back, E.t_cd), "from_json %s" % what, "from_json")
+                    # the premises of the C07 theorems on this value, and their conclusions (evaluated inside Coq)
+                    ctx.case("(let d := %s in ser_bool (wfj_cd d) ++ match code_data_from_json (code_data_to_json d) with "
+                             "OK d' => ser_bool (cd_eqb d d') | Err _ => [2] end ++ ser_bool (json_plain (code_data_to_json d)))" % E.g_cd(d),
+                             [1, 1, 1], "wfj_cd, round trip and plainness of %s" % what, "wf-monitor")
                 ncases += 1
             except E.Unsupported:
                 ctx.count("unsupported")
